@@ -5,6 +5,6 @@ CONSTANTS QCap = 2 MaxPend = 1 MaxOps = 6
           NoInboundFilter = FALSE NoNullCheck = FALSE AnyoneOpens = FALSE
           RepIds = {5, 7}
           TrackHistory = TRUE FlowCache = "in_after_out" HostIps = {"x", "y"} HostPorts = {1}
-          StaleVerdict = "none" HopFollowsPeer = FALSE FlagChoices = {} SignedSrcs = {}
+          StaleVerdict = "none" HopFollowsPeer = FALSE VerdictMemo = "none" FlagChoices = {} SignedSrcs = {}
           SrcSet = {"prev"} DkSet = {"v4", "dom4"}
 INVARIANT EmitOnlyAllowed
